@@ -854,6 +854,11 @@ pub fn candidates(spec: &Spec, k: usize, r: &mut Rng, random_extra: usize) -> Ve
                     let v: String = base.chars().enumerate().map(|(i, x)| if i == pidx { *ch } else { x }).collect();
                     let over = |l2: usize, c2: usize, rep: usize| if l2 == li && c2 == ci && rep == 0 { Some(format!("{}{}", c.lit, v)) } else { None };
                     out.push(Candidate { content: render(spec, k, &over, &default_counts), component: comp_label.clone(), class: format!("class={cname}@{pname}") });
+                    // and with the optional lines after it absent (single-line forms take other code paths)
+                    if spec.lines.iter().skip(li + 1).any(|x| x.optional) {
+                        let counts2 = |l2: usize| if l2 > li && spec.lines[l2].optional { 0 } else { default_counts(l2) };
+                        out.push(Candidate { content: render(spec, k, &over, &counts2), component: comp_label.clone(), class: format!("class={cname}@{pname},later-lines-absent") });
+                    }
                 }
             }
             // a BIC has two shapes: the classes again on the 11-character form, in the bank, country,
